@@ -186,6 +186,12 @@ bool FileHDF5::deleteSection(const std::string &name_or_id) {
         for(auto &child : section.sections()) {
             section.deleteSection(child.id());
         }
+        // properties go with their section; a link (possibly to the section
+        // itself) must not keep the deleted section's storage alive
+        for (auto &prop : section.properties()) {
+            section.deleteProperty(prop.id());
+        }
+        section.link(none);
         // if hasSection is true then section_group always exists
         deleted = metadata.removeAllLinks(section.name());
     }
